@@ -201,7 +201,13 @@ func UnmarshalValue(span herrors.Span, self interface{}) (*Value, *VmInterrupt) 
 }
 
 func MarshalToString(self Value) *Value {
-	return NewValueBuiltinFunction(func(executor Executor, cancelCtx *context.Context, span herrors.Span, args ...Value) (*Value, *VmInterrupt) {
+	return NewValueBuiltinFunction(func(executor Executor, cancelCtx *context.Context, span herrors.Span, args ...Value) (res *Value, i *VmInterrupt) {
+		// a value that cannot be encoded (a range) is a JSON error, not a host panic
+		defer func() {
+			if r := recover(); r != nil {
+				res, i = nil, NewVMFatalException(fmt.Sprint(r), Vm_JsonErrorKind, span)
+			}
+		}()
 		// TODO: fail if skipNull is true?
 		marshaled, _ := MarshalValue(self, false)
 		output, jsonErr := json.Marshal(marshaled)
@@ -213,7 +219,13 @@ func MarshalToString(self Value) *Value {
 }
 
 func MarshalIndentToString(self Value) *Value {
-	return NewValueBuiltinFunction(func(_ Executor, cancelCtx *context.Context, span herrors.Span, args ...Value) (*Value, *VmInterrupt) {
+	return NewValueBuiltinFunction(func(_ Executor, cancelCtx *context.Context, span herrors.Span, args ...Value) (res *Value, i *VmInterrupt) {
+		// a value that cannot be encoded (a range) is a JSON error, not a host panic
+		defer func() {
+			if r := recover(); r != nil {
+				res, i = nil, NewVMFatalException(fmt.Sprint(r), Vm_JsonErrorKind, span)
+			}
+		}()
 		// TODO: fail if skipNull is true?
 		marshaled, _ := MarshalValue(self, false)
 		output, jsonErr := json.MarshalIndent(marshaled, "", "    ")
